@@ -145,36 +145,56 @@ IsoDMSText(c) == (IF c.sg = 1 THEN "" ELSE "-") \o ToString(c.whole) \o "." \o P
 (***************************************************************************)
 (* Exploration                                                             *)
 (***************************************************************************)
-CONSTANT Segments    \* set of [sg, d, r, k, n]: start angle, step (mas), number of ticks
+CONSTANT Segments    \* set of [sg, d, r, k, n, x]: start angle, step (mas), number of ticks,
+                     \* x = 0: lattice walk; x > 0: pseudo-random walk started from x
 SegC == TLCEval(Segments)
 
 VARIABLES a,      \* the angle
           odo,    \* degree / minute / second odometer
           k,      \* step of this segment
-          left    \* ticks left
-vars == <<a, odo, k, left>>
+          left,   \* ticks left
+          rng     \* 0, or the state of the linear congruential generator
+vars == <<a, odo, k, left, rng>>
 
 Init == \E s \in SegC :
            /\ a = Angle(s.sg, s.d, s.r)
            /\ odo = [sg |-> s.sg, d |-> s.d, m |-> s.r \div MIN, s |-> s.r % MIN]
-           /\ k = s.k /\ left = s.n
+           /\ k = s.k /\ left = s.n /\ rng = s.x
 
 \* the odometer: seconds, carry into minutes, carry into degrees
 OdoAdd(o, n) == LET s1 == o.s + n
                     m1 == o.m + (s1 \div MIN)
                 IN [sg |-> o.sg, d |-> o.d + (m1 \div 60), m |-> m1 % 60, s |-> s1 % MIN]
 
-Tick == /\ left > 0
+\* one step along a lattice segment
+Tick == /\ left > 0 /\ rng = 0
         /\ a' = AddMas(a, k)
         /\ odo' = OdoAdd(odo, k)
         /\ left' = left - 1
+        /\ UNCHANGED <<k, rng>>
+
+\* "at random": jump to an angle in (-720, 720) degrees drawn from a linear
+\* congruential sequence (x -> 75 x mod 65537); the odometer is wound from d 0'0"
+Nx(x) == (75 * x) % 65537
+Jump == /\ left > 0 /\ rng > 0
+        /\ LET x1 == Nx(rng)
+               x2 == Nx(x1)
+               x3 == Nx(x2)
+               x4 == Nx(x3)
+               sg == IF x1 % 2 = 0 THEN 1 ELSE -1
+               d  == x2 % 720
+               r  == (x3 % 60) * MIN + (x4 % MIN)
+           IN /\ a' = AddMas(Angle(sg, d, 0), r)
+              /\ odo' = OdoAdd([sg |-> sg, d |-> d, m |-> 0, s |-> 0], r)
+              /\ rng' = x4
+        /\ left' = left - 1
         /\ UNCHANGED k
 
-Next == Tick
+Next == Tick \/ Jump
 Spec == Init /\ [][Next]_vars
 
 ----------------------------------------------------------------------------
-TypeOK == IsAngle(a) /\ ValidDMS(odo) /\ left \in Nat
+TypeOK == IsAngle(a) /\ ValidDMS(odo) /\ left \in Nat /\ rng \in 0..65536
 
 \* digit-wise carrying and one division of the remainder agree
 OdoInv == odo = EncDMS(a)
@@ -215,8 +235,8 @@ NormInv == LET p == NormPositive(a)
 
 \* a greater magnitude has a greater code: encodings are strictly monotone
 \* along a walk (an uncarried 60 or a lost carry would break this)
-MonotoneProp == [][ /\ CodeLess(EncIsoDM(a), EncIsoDM(a'))
-                    /\ CodeLess(EncIsoDMS(a), EncIsoDMS(a')) ]_vars
+MonotoneProp == [][ rng = 0 => /\ CodeLess(EncIsoDM(a), EncIsoDM(a'))
+                               /\ CodeLess(EncIsoDMS(a), EncIsoDMS(a')) ]_vars
 
 ----------------------------------------------------------------------------
 \* Behaviour export: one case per angle.  B is a second angle derived from
@@ -244,9 +264,8 @@ Emit == PrintT(<<"ANG", ToJson([
             dev0 |-> (a.sg = 1 /\ Below1(a))
         ])>>)
 
-\* the tuple-level expectations, once per run (slot = [unit, which])
-EmitTuples == (left = 0 /\ a.r = 0 /\ a.d = 0 /\ a.sg = 1) =>
-    PrintT(<<"TUP", ToJson([
+\* the tuple-level expectations (slot = <<unit, which>>), printed once at start-up
+ASSUME PrintT(<<"TUP", ToJson([
         geo     |-> CtorGeo(<<"deg", "A">>, <<"deg", "B">>),
         gis     |-> CtorGis(<<"deg", "A">>, <<"deg", "B">>),
         arcsec  |-> CtorArcsec(<<"arcsec", "A">>, <<"arcsec", "B">>),
